@@ -234,6 +234,13 @@ where
       | _ => false
     let defs := body.takeWhile isDef
     let rest := body.dropWhile isDef
+    -- definitions that come after expressions: every defined name is local to the body (bound up front,
+    -- initialised in the order written), as in Steel; the expressions in between run in place
+    if rest.any isDef then
+      let items ← body.mapM fun d => if isDef d then desugar d else (desugar d).map fun e => Expr.seq [e]
+      let names := items.filterMap fun | .define x _ => some x | _ => none
+      let stmts := items.map fun | .define x e => Expr.seq [Expr.set x e, Expr.void] | e => e
+      return .letrec (names.map fun x => (x, Expr.void)) (.seq stmts)
     let es ← rest.mapM desugar
     let bodyE : Expr := match es with
       | [e] => e
